@@ -10,6 +10,10 @@
 //                  <iMaxComp>,<dir>,<aCollision>,<gEndLine>,<numPseudo> PS:<digest pseudos> C:<numClasses>,<numLinear> P:<digest numRules,numStates per pass>
 //         silftable <numGlyphs> <numAttrs> <hasBoxes> <numFeatures> <hex bytes>        Face::readGraphite with the bytes (exact-size buffer) as the Silf table of the base font
 //            -> fault | notable | noglyphs | nofeat | E<code> | P<i> … | ok <numSilf> | <sub-table> … | nopasses <numSilf> | …
+//         glyphs <face options> <chunk bits the model assumes> <glyph count of maxp> <Gloc hex> <Glat hex> <gid,…> <key,…>
+//            GlyphCache on the base font with these Gloc and Glat tables (exact-size buffers); for each gid the attributes of the glyph
+//            -> fault | noglyphs | ok <numGlyphs> <numAttrs> <hasBoxes> | <per gid: - (no such glyph) | F (not loaded) |
+//                 n=<chunks> C:<digest of the chunks: mask bits 0-23, 24-47, offset> V:<digest of the values> L:<attrs[key],…> B:<sub-boxes>,<bitmap> or B:->
 //         codeinfo                          -> <numClasses> <numGlyphAttrs> <numFeatures> <numUser>: the limits the code loader takes from the base font
 //         code <constraint 0|1> <passtype> <pre_context> <rule_length> <classes> <gattrs> <feats> <user> <hex bytecode>
 //            Machine::Code's loading constructor on exactly these bytes (own buffers); the four limits must be codeinfo's
@@ -32,6 +36,9 @@
 #include "inc/Error.h"
 #include "inc/GlyphCache.h"
 #include "inc/FileFace.h"
+#include "inc/GlyphFace.h"
+#include "inc/Sparse.h"
+#include "inc/TtfUtil.h"
 #include "inc/Code.h"
 #include "inc/Machine.h"
 #include "inc/TtfTypes.h"
@@ -91,15 +98,17 @@ static bool face_matches(const Face *face, const std::vector<std::string> &w, si
         && (strtoul(w[at + 2].c_str(), 0, 10) != 0) == face->glyphs().hasBoxes() && strtoul(w[at + 3].c_str(), 0, 10) == face->numFeatures();
 }
 
-struct TableCtx { FileFace *ff; const uint8_t *silf; size_t silf_len; };
+struct TableCtx { FileFace *ff; const uint8_t *silf; size_t silf_len; const uint8_t *gloc; size_t gloc_len; const uint8_t *glat; size_t glat_len; };
 static const void *ctx_get_table(const void *h, unsigned int name, size_t *len) {
     const TableCtx *c = static_cast<const TableCtx *>(h);
-    if (name == Tag::Silf) { *len = c->silf_len; return c->silf; }
+    if (name == Tag::Silf && c->silf) { *len = c->silf_len; return c->silf; }
+    if (name == Tag::Gloc && c->gloc) { *len = c->gloc_len; return c->gloc; }
+    if (name == Tag::Glat && c->glat) { *len = c->glat_len; return c->glat; }
     return (*FileFace::ops.get_table)(c->ff, name, len);
 }
 static void ctx_rel_table(const void *h, const void *p) {
     const TableCtx *c = static_cast<const TableCtx *>(h);
-    if (p == c->silf) return;
+    if (p == c->silf || p == c->gloc || p == c->glat) return;
     (*FileFace::ops.release_table)(c->ff, p);
 }
 
@@ -145,6 +154,55 @@ int main(int argc, char **argv) {
                 if (g_faults) out = "fault"; else out += g + f;
             }
             delete sf;
+        } else if (w.size() == 8 && w[0] == "glyphs" && parse_hex(w[4], b)) {
+            // GlyphCache(face, options) with these bytes (exact-size buffers) as Gloc and Glat, the other tables from the base font's file
+            std::vector<uint8_t> b2;
+            size_t maxp_len = 0;
+            const void *maxp = (*face->m_ops.get_table)(face->m_appFaceHandle, Tag::maxp, &maxp_len);
+            unsigned ngg = maxp ? (unsigned)TtfUtil::GlyphCount(maxp) : 0;
+            if (maxp && face->m_ops.release_table) (*face->m_ops.release_table)(face->m_appFaceHandle, maxp);
+            if (!parse_hex(w[5], b2) || strtoul(w[2].c_str(), 0, 10) != sparse::SIZEOF_CHUNK || strtoul(w[3].c_str(), 0, 10) != ngg) { puts("bad-op"); fflush(stdout); continue; }
+            // not the subject here: a Glat table that Face::Table has to decompress first (C14)
+            if (b2.size() >= 8 && ((b2[0] << 24 | b2[1] << 16 | b2[2] << 8 | b2[3]) >= 0x00030000u) && (b2[4] >> 3) != 0) { puts("compressed"); fflush(stdout); continue; }
+            unsigned opts = atoi(w[1].c_str());
+            Exact eloc(b), elat(b2);
+            FileFace *ff = new FileFace(argv[1]);
+            TableCtx ctx = { ff, 0, 0, eloc.p, b.size(), elat.p, b2.size() };
+            const gr_face_ops ops = { sizeof(gr_face_ops), &ctx_get_table, &ctx_rel_table };
+            Face *f = new Face(&ctx, ops);
+            {
+                GlyphCache gc(*f, opts);
+                if (g_faults) out = "fault";
+                else if (gc.numGlyphs() == 0) out = "noglyphs";
+                else {
+                    snprintf(buf, sizeof buf, "ok %u %u %u", (unsigned)gc.numGlyphs(), (unsigned)gc.numAttrs(), gc.hasBoxes() ? 1u : 0u);
+                    out = buf;
+                    std::stringstream gs(w[6]); std::string gtok;
+                    while (std::getline(gs, gtok, ',')) {
+                        unsigned gid = atoi(gtok.c_str());
+                        if (gid >= gc.numGlyphs()) { out += " | -"; continue; }
+                        gc.glyph(gid);
+                        const GlyphFace *g = gc._glyphs[gid];
+                        if (!g) { out += " | F"; continue; }
+                        const sparse &sp = g->attrs();
+                        std::vector<unsigned> ch, vals, looks;
+                        const unsigned long *raw = reinterpret_cast<const unsigned long *>(sp.m_array.map);
+                        for (unsigned k = 0; k < sp.m_nchunks; ++k) { ch.push_back(unsigned(raw[k] & 0xFFFFFF)); ch.push_back(unsigned((raw[k] >> 24) & 0xFFFFFF)); ch.push_back(unsigned(raw[k] >> 48)); }
+                        size_t cap = sp.capacity();
+                        for (size_t k = 0; k < cap; ++k) vals.push_back(sp.m_array.values[4 * sp.m_nchunks + k]);
+                        std::stringstream ks(w[7]); std::string ktok;
+                        while (std::getline(ks, ktok, ',')) looks.push_back(sp[(uint16)atoi(ktok.c_str())]);
+                        snprintf(buf, sizeof buf, " | n=%u", (unsigned)sp.m_nchunks);
+                        out += std::string(buf) + " C:" + digestv(ch) + " V:" + digestv(vals) + " L:";
+                        for (size_t k = 0; k < looks.size(); ++k) { snprintf(buf, sizeof buf, "%s%u", k ? "," : "", looks[k]); out += buf; }
+                        if (gc._boxes && gc._boxes[gid]) { snprintf(buf, sizeof buf, " B:%u,%u", (unsigned)gc._boxes[gid]->_num, (unsigned)gc._boxes[gid]->_bitmap); out += buf; }
+                        else out += " B:-";
+                    }
+                }
+            }
+            delete f;
+            delete ff;
+            if (g_faults) out = "fault";
         } else if (w.size() == 1 && w[0] == "codeinfo") {
             snprintf(buf, sizeof buf, "%u %u %u %u", (unsigned)silf->numClasses(), (unsigned)face->glyphs().numAttrs(), (unsigned)face->numFeatures(), (unsigned)silf->numUser());
             out = buf;
@@ -201,7 +259,7 @@ int main(int argc, char **argv) {
             if (b.size() >= 8 && ((b[0] << 24 | b[1] << 16 | b[2] << 8 | b[3]) >= 0x00050000u) && (b[4] >> 3) != 0) { puts("compressed"); fflush(stdout); continue; }
             Exact e(b);
             FileFace *ff = new FileFace(argv[1]);
-            TableCtx ctx = { ff, e.p, b.size() };
+            TableCtx ctx = { ff, e.p, b.size(), 0, 0, 0, 0 };
             const gr_face_ops ops = { sizeof(gr_face_ops), &ctx_get_table, &ctx_rel_table };
             Face *f = new Face(&ctx, ops);
             {
